@@ -115,6 +115,8 @@ func c06Progs() []c06Prog {
 		{"Share", func(s ro.Observable[int]) ro.Observable[int] { return ro.Share[int]()(s) }, h.Unsafe},
 		{"TakeLast(2)", func(s ro.Observable[int]) ro.Observable[int] { return ro.TakeLast[int](2)(s) }, h.Unsafe},
 		{"ObserveOn(1)", func(s ro.Observable[int]) ro.Observable[int] { return ro.ObserveOn[int](1)(s) }, h.Unsafe},
+		// time-driven operators with queues and timers of their own (zero delay: the timers are due at once)
+		{"Delay(0)", func(s ro.Observable[int]) ro.Observable[int] { return ro.Delay[int](0)(s) }, h.Unsafe},
 	}
 }
 
@@ -293,53 +295,73 @@ func c06Concurrent(tier string) []fw.Scenario {
 		p := p
 		for _, w := range [][]h.Ev{wordC(1, 2), wordE(1), wordC(), wordC(1, 2, 3)} {
 			w := w
-			scns = append(scns, fw.Scenario{ID: "C06/collect/" + p.name + "/" + h.Word(w), Group: "Collect", Run: func(c *fw.Ctx) {
-				c.Explore(fw.Case{Name: "collect:" + h.Word(w), Bound: bound - 1, Make: func() fw.Instance {
-					tap := h.NewRec("tap")
-					var got []int
-					var gotErr error
-					returned := false
-					body := func() {
-						src := h.NewSrc("src")
-						o, push := h.Pushed[int](src, p.mode)
-						piped := ro.TapWithContext(
-							func(ctx ctxT, v int) { tapAdd(tap, h.Nx(v)) },
-							func(ctx ctxT, err error) { tapAdd(tap, h.Er(err)) },
-							func(ctx ctxT) { tapAdd(tap, h.Co()) },
-						)(p.build(o))
-						vrt.GoNamed("collector", func() {
-							got, gotErr = ro.Collect(piped)
-							returned = true
-						})
-						vrt.Settle()
-						vrt.GoNamed("producer", func() { play(push, w) })
+			for _, racing := range []bool{false, true} {
+				racing := racing
+				nmC := "collect:" + h.Word(w)
+				idC := "C06/collect/" + p.name + "/" + h.Word(w)
+				if racing {
+					// the producer starts as soon as the source has been subscribed: its terminal can be in
+					// flight while Collect is between Subscribe and Wait
+					nmC = "collect, producer racing Subscribe:" + h.Word(w)
+					idC += "/racing"
+				}
+				scns = append(scns, fw.Scenario{ID: idC, Group: "Collect", Run: func(c *fw.Ctx) {
+					b := bound - 1
+					if racing {
+						b = bound // Collect preempted before its check, the producer preempted inside its terminal
 					}
-					return fw.Instance{Body: body, Outcome: func() string { return fmt.Sprint(got, gotErr) }, Check: func(r *vrt.Result) []fw.Violation {
-						var out []fw.Violation
-						sig := "concurrent/Collect(" + p.name + ")"
-						if !returned {
-							return []fw.Violation{fw.V(sig+"/collect-never-returns/"+blockedSummary(r), "source ["+h.Word(w)+"]: Collect did not return: "+blockedSummary(r))}
-						}
-						var want []int
-						var wantErr error
-						for _, e := range tap.Events() {
-							switch e.K {
-							case h.N:
-								want = append(want, e.V.(int))
-							case h.E:
-								wantErr = e.Err
+					c.Explore(fw.Case{Name: nmC, Bound: b, Make: func() fw.Instance {
+						tap := h.NewRec("tap")
+						var got []int
+						var gotErr error
+						returned := false
+						body := func() {
+							src := h.NewSrc("src")
+							o, push := h.Pushed[int](src, p.mode)
+							piped := ro.TapWithContext(
+								func(ctx ctxT, v int) { tapAdd(tap, h.Nx(v)) },
+								func(ctx ctxT, err error) { tapAdd(tap, h.Er(err)) },
+								func(ctx ctxT) { tapAdd(tap, h.Co()) },
+							)(p.build(o))
+							vrt.GoNamed("collector", func() {
+								got, gotErr = ro.Collect(piped)
+								returned = true
+							})
+							if !racing {
+								vrt.Settle()
 							}
+							vrt.GoNamed("producer", func() {
+								vrt.Point(vrt.OpUser, 0, func() bool { n, _, _, _ := src.Get(); return n > 0 })
+								play(push, w)
+							})
 						}
-						if fmt.Sprint(got) != fmt.Sprint(want) && !(len(got) == 0 && len(want) == 0) {
-							out = append(out, fw.V(sig+"/collect-values/mismatch", fmt.Sprintf("source [%s]: Collect returned %v, the stream delivered %v", h.Word(w), got, want)))
-						}
-						if (gotErr == nil) != (wantErr == nil) {
-							out = append(out, fw.V(sig+"/collect-error/mismatch", fmt.Sprintf("source [%s]: Collect returned error %v, the stream ended with %v", h.Word(w), gotErr, wantErr)))
-						}
-						return out
-					}}
+						return fw.Instance{Body: body, Outcome: func() string { return fmt.Sprint(got, gotErr) }, Check: func(r *vrt.Result) []fw.Violation {
+							var out []fw.Violation
+							sig := "concurrent/Collect(" + p.name + ")"
+							if !returned {
+								return []fw.Violation{fw.V(sig+"/collect-never-returns/"+blockedSummary(r), "source ["+h.Word(w)+"]: Collect did not return: "+blockedSummary(r))}
+							}
+							var want []int
+							var wantErr error
+							for _, e := range tap.Events() {
+								switch e.K {
+								case h.N:
+									want = append(want, e.V.(int))
+								case h.E:
+									wantErr = e.Err
+								}
+							}
+							if fmt.Sprint(got) != fmt.Sprint(want) && !(len(got) == 0 && len(want) == 0) {
+								out = append(out, fw.V(sig+"/collect-values/mismatch", fmt.Sprintf("source [%s]: Collect returned %v, the stream delivered %v", h.Word(w), got, want)))
+							}
+							if (gotErr == nil) != (wantErr == nil) {
+								out = append(out, fw.V(sig+"/collect-error/mismatch", fmt.Sprintf("source [%s]: Collect returned error %v, the stream ended with %v", h.Word(w), gotErr, wantErr)))
+							}
+							return out
+						}}
+					}})
 				}})
-			}})
+			}
 		}
 	}
 	return scns
